@@ -448,3 +448,390 @@ Lemma sleeper_forces_signal s : reachable s -> 0 < at_pc PLrecv s -> s_ch s = fa
 Proof.
   intros Hr H1 H2 H3 H4. destruct (no_lost_wakeup s Hr H1) as [E|[E|[E|E]]]; try lia; congruence.
 Qed.
+
+(* ------------------------------------------------------------------ a free mutex with sleepers
+   can always be taken by one of the slow-path contenders, in at most 3 of its own steps *)
+Definition in_slow_path (t : thread) : Prop := t_pc t = PLrecv \/ t_pc t = PLload \/ t_pc t = PLswap.
+
+Lemma acquire_from_swap s i th : nth_error (s_thr s) i = Some th -> t_pc th = PLswap -> s_v s = 1 ->
+  exists s', run s [i] = Some s' /\ thread_at s' i (fun t => t_held t = true).
+Proof.
+  intros Hn Hpc Hv.
+  assert (Hs : step s i = Some (mkState (-1) (s_ch s) (upd (s_thr s) i (mkThread PIdle true (t_prog th) (t_res th))))).
+  { eapply step_intro; eauto. unfold tstep, tstep_gen. rewrite Hpc, Hv. reflexivity. }
+  eexists. split; [rewrite run_cons, Hs; reflexivity|].
+  eexists. split; [cbn [s_thr]; eapply nth_error_upd_same; eauto | reflexivity].
+Qed.
+
+Lemma acquire_from_load s i th : nth_error (s_thr s) i = Some th -> t_pc th = PLload -> s_v s = 1 ->
+  exists s', run s [i; i] = Some s' /\ thread_at s' i (fun t => t_held t = true).
+Proof.
+  intros Hn Hpc Hv.
+  set (th1 := mkThread PLswap (t_held th) (t_prog th) (t_res th)).
+  assert (Hs : step s i = Some (mkState (s_v s) (s_ch s) (upd (s_thr s) i th1))).
+  { eapply step_intro; eauto. unfold tstep, tstep_gen. rewrite Hpc, Hv. reflexivity. }
+  destruct (acquire_from_swap (mkState (s_v s) (s_ch s) (upd (s_thr s) i th1)) i th1) as (s' & Hr & Hh).
+  - cbn [s_thr]. eapply nth_error_upd_same; eauto.
+  - reflexivity.
+  - exact Hv.
+  - exists s'. split; [rewrite run_cons, Hs; exact Hr | exact Hh].
+Qed.
+
+Lemma acquire_from_recv s i th : nth_error (s_thr s) i = Some th -> t_pc th = PLrecv -> s_v s = 1 ->
+  s_ch s = true ->
+  exists s', run s [i; i; i] = Some s' /\ thread_at s' i (fun t => t_held t = true).
+Proof.
+  intros Hn Hpc Hv Hch.
+  set (th1 := mkThread PLload (t_held th) (t_prog th) (t_res th)).
+  assert (Hs : step s i = Some (mkState (s_v s) false (upd (s_thr s) i th1))).
+  { eapply step_intro; eauto. unfold tstep, tstep_gen. rewrite Hpc, Hch. reflexivity. }
+  destruct (acquire_from_load (mkState (s_v s) false (upd (s_thr s) i th1)) i th1) as (s' & Hr & Hh).
+  - cbn [s_thr]. eapply nth_error_upd_same; eauto.
+  - reflexivity.
+  - exact Hv.
+  - exists s'. split; [rewrite run_cons, Hs; exact Hr | exact Hh].
+Qed.
+
+Lemma free_mutex_wakes_sleeper s : reachable s ->
+  holders s = 0 -> at_pc PUsend s = 0 -> 0 < at_pc PLrecv s ->
+  exists i sched s', thread_at s i in_slow_path /\ (forall j, In j sched -> j = i) /\
+    (length sched <= 3)%nat /\ run s sched = Some s' /\ thread_at s' i (fun t => t_held t = true).
+Proof.
+  intros Hr Hfree Hsend Hsleep.
+  assert (Hv : s_v s = 1) by (apply (free_iff_v1 s Hr); assumption).
+  destruct (no_lost_wakeup s Hr Hsleep) as [Hch|[E|[E|[E _]]]]; try lia.
+  - unfold at_pc in Hsleep. destruct (sumf_pos_exists _ _ Hsleep) as (i & a & Hn & Ha).
+    apply fP_pos in Ha.
+    destruct (acquire_from_recv s i a Hn Ha Hv Hch) as (s' & Hrun & Hh).
+    exists i, [i; i; i], s'.
+    split; [exists a; split; auto; left; auto|].
+    split; [cbn; intros j [?|[?|[?|[]]]]; auto|].
+    split; [cbn; lia|]. split; assumption.
+  - destruct (Z_lt_dec 0 (at_pc PLload s)) as [Hl|Hl].
+    + unfold at_pc in Hl. destruct (sumf_pos_exists _ _ Hl) as (i & a & Hn & Ha).
+      apply fP_pos in Ha.
+      destruct (acquire_from_load s i a Hn Ha Hv) as (s' & Hrun & Hh).
+      exists i, [i; i], s'.
+      split; [exists a; split; auto; right; left; auto|].
+      split; [cbn; intros j [?|[?|[]]]; auto|].
+      split; [cbn; lia|]. split; assumption.
+    + assert (Hw : 0 < at_pc PLswap s) by lia.
+      unfold at_pc in Hw. destruct (sumf_pos_exists _ _ Hw) as (i & a & Hn & Ha).
+      apply fP_pos in Ha.
+      destruct (acquire_from_swap s i a Hn Ha Hv) as (s' & Hrun & Hh).
+      exists i, [i], s'.
+      split; [exists a; split; auto; right; right; auto|].
+      split; [cbn; intros j [?|[]]; auto|].
+      split; [cbn; lia|]. split; assumption.
+Qed.
+
+(* ------------------------------------------------------------------ deadlock freedom *)
+(* shape of the remaining program: it still ends with an Unlock, or it is exhausted and the
+   thread neither holds the mutex nor is inside Lock/TryLock *)
+Definition J (th : thread) : Prop :=
+  last (t_prog th) OLock = OUnlock \/
+  (t_prog th = [] /\ t_held th = false /\ (t_pc th = PIdle \/ t_pc th = PUsend)).
+
+Lemma J_init p : ends_unlock p -> J (init_thread p).
+Proof. intros [->|H]; [right; cbn; auto | left; exact H]. Qed.
+
+Lemma J_tstep v ch th v' ch' th' ev : tstep v ch th = Some (v', ch', th', ev) -> J th -> J th'.
+Proof.
+  intros Ht HJ. unfold J in *.
+  tstep_cases Ht; cbn [t_prog t_held t_pc].
+  all: try match goal with H : next_op _ _ = Some (_, _) |- _ =>
+             destruct (next_op_suffix _ _ _ _ H) as (pre & Hpre) end.
+  all: destruct HJ as [HJ | (HJ1 & HJ2 & [HJ3|HJ3])].
+  all: try (left; exact HJ).
+  all: try congruence.
+  all: try (rewrite HJ1 in Hpre; destruct pre; discriminate Hpre).
+  all: try (right; auto; fail).
+  all: rewrite Hpre, last_app_cons in HJ.
+  all: match goal with H : next_op _ _ = Some (_, ?r) |- _ => destruct r end.
+  all: try (left; exact HJ).
+  all: try (cbn in HJ; discriminate HJ).
+  all: right; auto.
+Qed.
+
+Lemma reachable_from_J progs s : Forall ends_unlock progs -> reachable_from progs s -> Forall J (s_thr s).
+Proof.
+  intros Hp Hr. induction Hr as [|s i s' Hr IH Hs].
+  - cbn. induction Hp; cbn; constructor; auto using J_init.
+  - destruct (step_inv _ _ _ Hs) as (th & v' & ch' & th' & ev & Hn & Ht & ->).
+    cbn [s_thr]. apply Forall_upd; [exact IH|].
+    eapply J_tstep; [exact Ht|]. eapply Forall_nth_error; eauto.
+Qed.
+
+Lemma finished_dec th : {finished th} + {~ finished th}.
+Proof.
+  unfold finished. destruct (t_pc th); try (right; intros [E _]; discriminate).
+  destruct (next_op (t_held th) (t_prog th)); [right; intros [_ E]; discriminate | left; auto].
+Qed.
+
+(* the only disabled situations: program exhausted, or asleep on an empty channel *)
+Lemma tstep_enabled v ch th : ~ finished th -> (t_pc th = PLrecv -> ch = true) ->
+  exists r, tstep v ch th = Some r.
+Proof.
+  intros Hf Hr. unfold finished in Hf. unfold tstep, tstep_gen.
+  destruct (t_pc th) eqn:Hpc.
+  - destruct (next_op (t_held th) (t_prog th)) as [[[] r]|] eqn:Hop.
+    + destruct (v - 1 =? 0); eauto.
+    + destruct (v <=? 0); eauto.
+    + destruct (sig_real v); eauto.
+    + exfalso. apply Hf. auto.
+  - destruct (0 <=? v); eauto.
+  - destruct (v =? 1); eauto.
+  - rewrite Hr by reflexivity. eauto.
+  - destruct (v =? 1); eauto.
+  - eauto.
+Qed.
+
+Lemma thread_enabled s i th : nth_error (s_thr s) i = Some th -> ~ finished th ->
+  (t_pc th = PLrecv -> s_ch s = true) -> exists s', step s i = Some s'.
+Proof.
+  intros Hn Hf Hr. destruct (tstep_enabled (s_v s) (s_ch s) th Hf Hr) as ([[[v' ch'] th'] ev] & Ht).
+  eexists. eapply step_intro; eauto.
+Qed.
+
+Lemma deadlock_free progs s : Forall ends_unlock progs -> reachable_from progs s ->
+  (exists th, In th (s_thr s) /\ ~ finished th) -> exists i s', step s i = Some s'.
+Proof.
+  intros Hp Hr (th & Hin & Hnf).
+  pose proof (reachable_from_Inv _ _ Hr) as (HM & HW & HK).
+  pose proof (reachable_from_J _ _ Hp Hr) as HJ.
+  destruct (In_nth_error _ _ Hin) as (i & Hn).
+  destruct (pc_eqb (t_pc th) PLrecv) eqn:Hpc.
+  2:{ exists i. eapply thread_enabled; eauto. intros E. rewrite E in Hpc. discriminate. }
+  apply pc_eqb_true in Hpc.
+  destruct (s_ch s) eqn:Hch.
+  { exists i. eapply thread_enabled; eauto. }
+  (* th sleeps on an empty channel: somebody else must be able to move *)
+  assert (Hsleep : 0 < at_pc PLrecv s).
+  { unfold at_pc.
+    pose proof (sumf_ge_elem (fun t => b2z (pc_eqb (t_pc t) PLrecv)) _ _ _ (fun t => proj1 (b2z_range _)) Hn) as G.
+    cbn beta in G. rewrite Hpc in G. cbn in G. lia. }
+  assert (Hpick : forall p, p <> PLrecv -> p <> PIdle -> 0 < at_pc p s -> exists j s', step s j = Some s').
+  { intros p Hp' Hp'' Hpos. unfold at_pc in Hpos. destruct (sumf_pos_exists _ _ Hpos) as (j & a & Hnj & Ha).
+    apply fP_pos in Ha. exists j. eapply thread_enabled; eauto.
+    - intros [E _]. congruence.
+    - intros E. congruence. }
+  destruct (HW Hsleep) as [E|[E|[E|[E1 E2]]]].
+  - congruence.
+  - apply (Hpick PUsend); [discriminate | discriminate | exact E].
+  - destruct (Z_lt_dec 0 (at_pc PLload s)).
+    + apply (Hpick PLload); [discriminate | discriminate | assumption].
+    + apply (Hpick PLswap); [discriminate | discriminate | lia].
+  - (* the holder can run its next call *)
+    assert (Hh : 0 < holders s) by lia. unfold holders in Hh.
+    destruct (sumf_pos_exists _ _ Hh) as (j & a & Hnj & Ha). apply fH_pos in Ha.
+    pose proof (Forall_nth_error _ _ _ _ HK Hnj Ha) as Hidle.
+    exists j. eapply thread_enabled; eauto.
+    + intros [_ Hnone].
+      destruct (Forall_nth_error _ _ _ _ HJ Hnj) as [HJa | (HJ1 & HJ2 & _)]; [|congruence].
+      rewrite Ha in Hnone. eapply next_op_held_ends_unlock; eauto.
+    + intros E. congruence.
+Qed.
+
+(* ------------------------------------------------------------------ every schedule is finite
+   (finite client programs): a ranking function that decreases with every step.  A sleeper's
+   loop iteration consumes a token; tokens are only produced by Unlock calls, which are finite. *)
+Fixpoint countU (p : list op) : Z :=
+  match p with [] => 0 | OUnlock :: r => 1 + countU r | _ :: r => countU r end.
+Definition pcw (p : pc) : Z :=
+  match p with PIdle => 0 | PLload => 3 | PLswap => 2 | PLrecv => 1 | PTcas => 1 | PUsend => 1 end.
+Definition mu_thread (t : thread) : Z :=
+  3 * (countU (t_prog t) + b2z (pc_eqb (t_pc t) PUsend)) + 4 * Z.of_nat (length (t_prog t)) + pcw (t_pc t).
+Definition mu (s : state) : Z := 3 * b2z (s_ch s) + sumf mu_thread (s_thr s).
+
+Lemma countU_range p : 0 <= countU p <= Z.of_nat (length p).
+Proof. induction p as [|o p IH]; cbn [countU length]; [lia|]. destruct o; lia. Qed.
+
+Lemma mu_thread_nonneg t : 0 <= mu_thread t.
+Proof.
+  unfold mu_thread. pose proof (countU_range (t_prog t)). pose proof (b2z_range (pc_eqb (t_pc t) PUsend)).
+  assert (0 <= pcw (t_pc t)) by (destruct (t_pc t); cbn; lia). lia.
+Qed.
+
+Lemma mu_nonneg s : 0 <= mu s.
+Proof.
+  unfold mu. pose proof (b2z_range (s_ch s)). pose proof (sumf_nonneg mu_thread (s_thr s) mu_thread_nonneg). lia.
+Qed.
+
+Lemma next_op_measure : forall p h o r, next_op h p = Some (o, r) ->
+  Z.of_nat (length r) + 1 <= Z.of_nat (length p) /\
+  countU r + (match o with OUnlock => 1 | _ => 0 end) <= countU p.
+Proof.
+  induction p as [|a p IH]; cbn [next_op]; intros h o r H; [discriminate|].
+  destruct a, h; try (inversion H; subst; cbn [countU length]; lia);
+    destruct (IH _ _ _ H); cbn [countU length]; lia.
+Qed.
+
+Lemma step_decreases s i s' : step s i = Some s' -> mu s' + 1 <= mu s.
+Proof.
+  intros Hs. destruct (step_inv _ _ _ Hs) as (th & v' & ch' & th' & ev & Hn & Ht & ->).
+  unfold mu. cbn [s_thr s_ch]. rewrite (sumf_upd _ _ _ _ _ Hn).
+  unfold mu_thread.
+  tstep_cases Ht; pc_facts; cbn [t_prog t_pc pc_eqb b2z pcw];
+    try match goal with H : next_op _ _ = Some _ |- _ => destruct (next_op_measure _ _ _ _ H) end;
+    try (destruct (s_ch s); cbn [b2z]); lia.
+Qed.
+
+Lemma run_length : forall sched s s', run s sched = Some s' -> Z.of_nat (length sched) + mu s' <= mu s.
+Proof.
+  induction sched as [|i r IH]; intros s s' H.
+  - inversion H; subst. cbn. lia.
+  - rewrite run_cons in H. destruct (step s i) as [s1|] eqn:E; [|discriminate].
+    pose proof (step_decreases _ _ _ E). pose proof (IH _ _ H). cbn [length]. lia.
+Qed.
+
+Definition total_ops (progs : list (list op)) : Z := Z.of_nat (length (concat progs)).
+
+Lemma mu_init progs : mu (init progs) <= 7 * total_ops progs.
+Proof.
+  unfold mu, init, total_ops. cbn [s_ch s_thr b2z].
+  induction progs as [|p l IH]; cbn [map sumf concat]; [cbn; lia|].
+  rewrite app_length, Nat2Z.inj_add. unfold mu_thread at 1. cbn [init_thread t_prog t_pc pc_eqb b2z pcw].
+  pose proof (countU_range p). lia.
+Qed.
+
+(* every run from an initial state has at most 7 * (number of API calls in the programs) steps *)
+Lemma run_length_bounded progs sched s : run (init progs) sched = Some s ->
+  Z.of_nat (length sched) <= 7 * total_ops progs.
+Proof.
+  intros H. pose proof (run_length _ _ _ H). pose proof (mu_nonneg s). pose proof (mu_init progs). lia.
+Qed.
+
+Lemma step_gen_oob sig s i : (length (s_thr s) <= i)%nat -> step_gen sig s i = None.
+Proof.
+  intros H. unfold step_gen, step_ev_gen.
+  replace (nth_error (s_thr s) i) with (@None thread); [reflexivity|].
+  symmetry. apply nth_error_None. exact H.
+Qed.
+
+Lemma step_oob s i : (length (s_thr s) <= i)%nat -> step s i = None.
+Proof. apply step_gen_oob. Qed.
+
+Lemma step_dec_upto s : forall n,
+  (forall i, (i < n)%nat -> step s i = None) \/ (exists i s', step s i = Some s').
+Proof.
+  induction n as [|n [IH|IH]].
+  - left. intros i Hi. lia.
+  - destruct (step s n) as [s'|] eqn:E.
+    + right. eauto.
+    + left. intros i Hi. destruct (Nat.eq_dec i n) as [->|]; [exact E | apply IH; lia].
+  - right. exact IH.
+Qed.
+
+Lemma step_dec s : (forall i, step s i = None) \/ (exists i s', step s i = Some s').
+Proof.
+  destruct (step_dec_upto s (length (s_thr s))) as [H|H]; [left|right; exact H].
+  intros i. destruct (Nat.lt_ge_cases i (length (s_thr s))); [apply H; assumption | apply step_oob; assumption].
+Qed.
+
+(* every run can be extended to a maximal one *)
+Lemma runs_terminate s : exists sched s', run s sched = Some s' /\ forall i, step s' i = None.
+Proof.
+  assert (G : forall n s, mu s <= Z.of_nat n ->
+              exists sched s', run s sched = Some s' /\ forall i, step s' i = None).
+  { induction n as [|n IH]; intros s0 Hm.
+    - exists [], s0. split; [reflexivity|]. intros i. destruct (step s0 i) as [s1|] eqn:E; [|reflexivity].
+      pose proof (step_decreases _ _ _ E). pose proof (mu_nonneg s1). lia.
+    - destruct (step_dec s0) as [Hnone|(i & s1 & E)].
+      + exists [], s0. split; [reflexivity | exact Hnone].
+      + pose proof (step_decreases _ _ _ E).
+        destruct (IH s1) as (sched & s' & Hr & Hmax); [lia|].
+        exists (i :: sched), s'. split; [rewrite run_cons, E; exact Hr | exact Hmax]. }
+  apply (G (Z.to_nat (mu s))). pose proof (mu_nonneg s). lia.
+Qed.
+
+(* Liveness for finite client programs that end by unlocking, under EVERY schedule (no fairness
+   needed): a run has at most 7 * total_ops steps; when nothing more can run, every program is
+   finished, i.e. every Lock call that was issued has returned; and every run prefix can be
+   extended to such a complete run. *)
+Lemma lock_returns_finite progs sched s : Forall ends_unlock progs ->
+  run (init progs) sched = Some s ->
+  Z.of_nat (length sched) <= 7 * total_ops progs /\
+  ((forall i, step s i = None) -> Forall finished (s_thr s)) /\
+  (exists more s', run s more = Some s' /\ Forall finished (s_thr s')).
+Proof.
+  intros Hp Hrun.
+  assert (Hr : reachable_from progs s) by (apply reachable_from_iff_run; eauto).
+  assert (Hmax : forall s0, reachable_from progs s0 -> (forall i, step s0 i = None) -> Forall finished (s_thr s0)).
+  { intros s0 Hr0 Hnone. apply Forall_forall. intros th Hin.
+    destruct (finished_dec th) as [F|F]; [exact F|exfalso].
+    destruct (deadlock_free progs s0 Hp Hr0) as (i & s' & E); [eauto|].
+    rewrite Hnone in E. discriminate. }
+  split; [eapply run_length_bounded; eauto|]. split; [apply Hmax; exact Hr|].
+  destruct (runs_terminate s) as (more & s' & Hm & Hnone).
+  exists more, s'. split; [exact Hm|]. apply Hmax; [|exact Hnone].
+  eapply reachable_from_run; eauto.
+Qed.
+
+(* ------------------------------------------------------------------ the invariant has teeth:
+   an Unlock that signals only when the value swapped out is below -1 loses the wake-up of a single
+   sleeper *)
+Definition LU := [OLock; OUnlock].
+Definition TU := [OTryLock; OUnlock].
+
+Lemma naive_unlock_refuted :
+  exists progs sched s, Forall ends_unlock progs /\
+    run_gen sig_naive (init progs) sched = Some s /\
+    stuck s /\ (forall i, step_gen sig_naive s i = None) /\ ~ Forall finished (s_thr s).
+Proof.
+  exists [LU; LU], [0; 1; 1; 0]%nat.
+  eexists. split; [|split; [vm_compute; reflexivity|]].
+  - repeat constructor; right; reflexivity.
+  - split; [|split].
+    + unfold stuck. vm_compute. repeat split; congruence.
+    + intros [|[|i]]; try reflexivity. apply step_gen_oob. cbn. lia.
+    + intros F. cbn [s_thr] in F. inversion F as [|? ? F1 F2]; subst. inversion F2 as [|? ? F3 F4]; subst.
+      destruct F3 as [E _]. discriminate E.
+Qed.
+
+(* the same schedule on the real algorithm signals, and the run completes *)
+Lemma real_unlock_same_schedule :
+  exists s, run (init [LU; LU]) [0; 1; 1; 0; 0; 1; 1; 1; 1; 1]%nat = Some s /\
+            forallb finishedb (s_thr s) = true /\ s_v s = 1.
+Proof. eexists. split; [vm_compute; reflexivity|]. split; reflexivity. Qed.
+
+(* ------------------------------------------------------------------ non-vacuity *)
+(* three threads: T0 holds, T1 and T2 asleep in the slow path, v = -2 *)
+Lemma contended_reachable :
+  exists s, reachable s /\ at_pc PLrecv s = 2 /\ holders s = 1 /\ s_v s = -2 /\ s_ch s = false.
+Proof.
+  destruct (run (init [LU; LU; LU]) [0; 1; 1; 2; 2]%nat) as [s|] eqn:E; [|vm_compute in E; discriminate].
+  exists s. split.
+  - exists [LU; LU; LU]. apply reachable_from_iff_run. eauto.
+  - vm_compute in E. inversion E; subst. vm_compute. auto.
+Qed.
+
+(* ... and the full contended run: both sleepers are woken one after the other, everybody finishes *)
+Lemma contended_run_completes :
+  exists s, run (init [LU; LU; LU]) [0; 1; 1; 2; 2; 0; 0; 1; 1; 1; 1; 1; 2; 2; 2; 2; 2]%nat = Some s /\
+            forallb finishedb (s_thr s) = true /\ s_v s = 1 /\ s_ch s = true /\
+            (forall i, step s i = None).
+Proof.
+  eexists. split; [vm_compute; reflexivity|]. repeat split.
+  intros [|[|[|i]]]; try reflexivity. apply step_oob. cbn. lia.
+Qed.
+
+(* a free mutex with a sleeper and a pending token is reachable (hypotheses of
+   free_mutex_wakes_sleeper are satisfiable) *)
+Lemma free_with_sleeper_reachable :
+  exists s, reachable s /\ holders s = 0 /\ at_pc PUsend s = 0 /\ 0 < at_pc PLrecv s.
+Proof.
+  destruct (run (init [LU; LU]) [0; 1; 1; 0; 0]%nat) as [s|] eqn:E; [|vm_compute in E; discriminate].
+  exists s. split.
+  - exists [LU; LU]. apply reachable_from_iff_run. eauto.
+  - vm_compute in E. inversion E; subst. vm_compute. auto.
+Qed.
+
+(* TryLock success is reachable while another thread is mid-slow-path *)
+Lemma trylock_true_reachable :
+  exists s s', reachable s /\ step_ev s 1%nat = Some (s', EvTryT).
+Proof.
+  destruct (run (init [LU; TU]) [0; 0; 1]%nat) as [s|] eqn:E; [|vm_compute in E; discriminate].
+  exists s. eexists. split.
+  - exists [LU; TU]. apply reachable_from_iff_run. eauto.
+  - vm_compute in E. inversion E; subst. vm_compute. reflexivity.
+Qed.
